@@ -72,6 +72,8 @@ func wallClockScenario(r *core.Run, is *Issued, a *Party) {
 			jump(phases[0].at)
 			opts := &verify.Options{RootsOfTrust: Pool(a.Root)}
 			longLived := verify.SNPValidateFunc(opts)
+			// one options value, Now unset, handed to the one-shot entry point again and again
+			reused := &verify.Options{RootsOfTrust: Pool(a.Root)}
 			for _, ph := range phases {
 				jump(ph.at)
 				freshOpts := &verify.Options{RootsOfTrust: Pool(a.Root)}
@@ -86,6 +88,11 @@ func wallClockScenario(r *core.Run, is *Issued, a *Party) {
 				if (unset == nil) != (explicit == nil) {
 					r.Fail("result-differs-from-isolation", "wall-clock/unset-vs-explicit/"+ph.name, "verify.Endorsement with Now unset gives accept=%v at wall-clock time %s, with that time given explicitly accept=%v (%v / %v)",
 						unset == nil, time.Now().UTC().Format(time.RFC3339), explicit == nil, unset, explicit)
+				}
+				viaReused := verify.Endorsement(is.Bytes, reused)
+				if (viaReused == nil) != (explicit == nil) || !reused.Now.IsZero() {
+					r.Fail("result-differs-from-isolation", "wall-clock/reused-options/"+ph.name, "verify.Endorsement through an options value used before (Now unset) gives accept=%v at wall-clock time %s, a fresh one with that time accept=%v; the caller's Now is now %v",
+						viaReused == nil, time.Now().UTC().Format(time.RFC3339), explicit == nil, reused.Now)
 				}
 				sctx := output.NewContext(context.Background(), &output.Options{Quiet: true})
 				sUnset := gcetcbendorsement.SevValidate(sctx, SnpAttestation(meas, is.Bytes), &gcetcbendorsement.SevValidateOptions{RootsOfTrust: Pool(a.Root)})
